@@ -61,7 +61,14 @@ class Task:
         self.name = f'{c.key}' + (f'@{c.which}' if c.which else '') + (f'[{label}]' if label else '')
         self.ctx = Ctx(self.name)
         cs = contracts_by_key()
-        self.ip = Interp(self.ctx, self.index, cs, SPEC_NS)
+        ns = dict(SPEC_NS)
+        try:
+            import contracts.specfn as sf
+            import types as _t
+            ns.update({k: v for k, v in vars(sf).items() if isinstance(v, _t.FunctionType) and v.__module__ == sf.__name__})
+        except ImportError:
+            pass
+        self.ip = Interp(self.ctx, self.index, cs, ns)
         self.ip.active_contract = c
         if c.which == 'setter':
             # loop contracts etc. are looked up by key: make this contract the one for its key
@@ -111,6 +118,8 @@ class Task:
                 frame.vars[n] = args[n]
         if c.setup:
             c.setup(ip, st, frame.vars)
+        for nm in c.reveal:
+            ctx.axiom(ip.reveal_axiom(ip.spec_ns[nm], st))
         frame.vars['__entry'] = {k: v for k, v in frame.vars.items() if not k.startswith('__')}
         for cl in c.requires:
             st.assume(ip.spec_bool(cl.src, st))
@@ -178,7 +187,7 @@ def generate(task: Task):
                 f = ip.spec_bool(cond, s.old)
                 ctx.oblige(s, f'{qn}#no-raise-when:{nm}@path{pid}', 'raises', 'clause', z3.Not(f), note=cond)
         for cl in c.ensures:
-            f = ip.spec_bool(cl.src, s, extra=env)
+            f = ip.spec_bool(cl.proof_src(), s, extra=env, locals_visible=True)
             o = ctx.oblige(s, f'{qn}#post:{cl.label}@path{pid}', 'post', cl.role, f, note=cl.src)
             if o is not None:
                 o.clause = cl
@@ -373,6 +382,9 @@ def discharge(task: Task, timeout_ms=20000, keep_smt=0):
                                                     tactics=False)
         else:
             hyps = base + list(o.hyps)
+            if getattr(o, 'qf_only', False):
+                # lemma over the quantifier-free facts only (a weaker hypothesis set: still sound)
+                hyps = [h for h in hyps if not has_quantifier(h)]
             res, secs, backend, model, smt2 = check(hyps, o.goal, timeout_ms, expect=o.expect)
         o.result, o.time, o.backend = res, secs, backend
         o.model = model
@@ -429,6 +441,30 @@ def verify_instance(key, label, timeout_ms=20000, which=None, seed=0, crosscheck
                 try:
                     d['inputs'] = model_inputs(task, o.model)
                     d['replay_src'] = make_replay(task, o, ModelEv(o.model))
+                    # does the counter-model reproduce natively?  if not, seeded search for a failing input
+                    from .crosscheck import native_namespace, native_args, native_clause_violated, native_search
+                    ns = native_namespace(task)
+                    hit = False
+                    try:
+                        nargs = native_args(task, ModelEv(o.model), ns)
+                        hit = native_clause_violated(task, ns, nargs, o.kind, o.note or 'True')
+                    except Exception:  # noqa
+                        hit = False
+                    if not hit and o.kind in ('post', 'raises', 'frame', 'nodiv0', 'index', 'domain', 'inv-preserve',
+                                              'inv-entry', 'variant', 'lemma'):
+                        kind = o.kind if o.kind in ('post', 'raises', 'frame', 'nodiv0', 'index', 'domain') else None
+                        cands = [(kind, o.note or 'True')] if kind else \
+                            [('post', cl.src) for cl in c.ensures] + [('raises', '')]
+                        for kd, src in cands:
+                            srcs = native_search(task, kd, src, seed)
+                            if srcs is not None:
+                                class _O:
+                                    pass
+                                fo = _O()
+                                fo.name, fo.kind, fo.note = o.name, kd, src
+                                d['replay_src'] = make_replay(task, fo, None, concrete_src=srcs)
+                                d['found_by'] = 'seeded native search after the counter-model did not reproduce'
+                                break
                 except Exception as e:  # noqa
                     d['replay_error'] = f'{type(e).__name__}: {e}'
             if not o.ok:
